@@ -31,6 +31,8 @@ var Variants = []VariantInfo{
 	{Name: "ok_rich", Class: ClassOK, UsesLib: true},
 	{Name: "ok_multi", Class: ClassOK, UsesLib: true},
 	{Name: "ok_badset", Class: ClassOK, BadSet: true},
+	// good injector + an unused top-level set that merely COMBINES two sets, each fine alone, cyclic together
+	{Name: "ok_cycleset", Class: ClassOK, BadSet: true},
 	{Name: "noinj", Class: ClassNone},
 	{Name: "bad_missing", Class: ClassBad, Stem: "no provider found"},
 	{Name: "bad_unused", Class: ClassBad, Stem: "unused provider"},
@@ -41,6 +43,9 @@ var Variants = []VariantInfo{
 	{Name: "bad_sig_cleanup", Class: ClassBad, Stem: "returns cleanup but injection does not return cleanup function", CheckGap: true},
 	{Name: "bad_value_unexported", Class: ClassBad, Stem: "can't be used", CheckGap: true, UsesLib: true},
 	{Name: "mixed", Class: ClassBad, Stem: "no provider found"},
+	// uses the library's malformed set (only drawn while lib is lib_badset): the diagnostic is positioned in lib's
+	// file, so two such packages in one invocation fail with byte-identical errors
+	{Name: "bad_libset", Class: ClassBad, Stem: "multiple bindings", UsesLib: true},
 	{Name: "typeerr", Class: ClassTypeErr},
 }
 
@@ -148,6 +153,49 @@ func InitBar() {RES} {
 }
 `),
 		}
+	case "ok_cycleset", "probe_cycleset_used":
+		files := []world.File{
+			f("model.go", basicModel+`
+// Engine and Gearbox need each other.
+type Engine struct{ G *Gearbox }
+
+type Gearbox struct{ E *Engine }
+
+func ProvideEngine(g *Gearbox) *Engine { return &Engine{G: g} }
+
+func ProvideGearbox(e *Engine) *Gearbox { return &Gearbox{E: e} }
+`),
+			f("sets.go", `package {P}
+
+import "github.com/google/wire"
+
+// EngineSet needs a *Gearbox from outside.
+var EngineSet = wire.NewSet(ProvideEngine)
+
+// GearboxSet needs an *Engine from outside.
+var GearboxSet = wire.NewSet(ProvideGearbox)
+
+// Drivetrain adds nothing of its own: it combines two sets that are fine alone and cyclic together.
+var Drivetrain = wire.NewSet(EngineSet, GearboxSet)
+`),
+		}
+		inj := `func InitBar() {RES} {
+	wire.Build(ProvideFoo{N}, ProvideBar)
+	{RET}
+}
+`
+		if v == "probe_cycleset_used" {
+			inj = `func InitEngine() *Engine {
+	wire.Build(Drivetrain)
+	return nil
+}
+`
+		}
+		return append(files, f("wire.go", injectHeader+`package {P}
+
+import "github.com/google/wire"
+
+`+inj))
 	case "ok_badset":
 		return []world.File{
 			f("model.go", basicModel+`
@@ -398,6 +446,29 @@ import "github.com/google/wire"
 
 func InitBar() {RES} {
 	wire.Build(ProvideFoo{N}, ProvideBar)
+	{RET}
+}
+`),
+		}
+	case "bad_libset":
+		return []world.File{
+			f("model.go", `package {P}
+
+import "example.com/lib"
+
+type Bar struct{ D lib.Dep }
+
+func ProvideBar{N}(d lib.Dep) Bar { return Bar{D: d} }
+`),
+			f("wire.go", injectHeader+`package {P}
+
+import (
+	"example.com/lib"
+	"github.com/google/wire"
+)
+
+func InitBar() {RES} {
+	wire.Build(lib.BadSet, ProvideBar{N})
 	{RET}
 }
 `),
